@@ -37,6 +37,7 @@ class Emitter:
         self.shard_cases = shard_cases
         self.shard_bytes = shard_bytes
         self.cases = []  # (got_expr, exp_bytes, exp_floats, size)
+        self.specs = []
         self.meta_cases = []
         self.direct_violations = []
         self.direct_evaluations = 0
@@ -46,9 +47,44 @@ class Emitter:
     def count(self, key, n=1):
         self.dist[key] = self.dist.get(key, 0) + n
 
-    def add(self, got_expr, exp_bytes, exp_floats, desc, inp, impl, explain=None, size=0):
+    def add(self, got_expr, exp_bytes, exp_floats, desc, inp, impl, explain=None, size=0, spec=None):
         self.cases.append((got_expr, exp_bytes, exp_floats, size + len(exp_bytes)))
         self.meta_cases.append({"desc": desc, "input": inp, "impl": impl, "explain": explain})
+        self.specs.append(spec)
+
+    def order_check(self, max_specs=4000):
+        """re-evaluate the recorded calls in a fresh interpreter in reverse order; a different observable = order dependence"""
+        import evalspec
+        import subprocess
+        idx = [i for i, sp in enumerate(self.specs) if sp is not None]
+        if not idx:
+            return
+        if len(idx) > max_specs:
+            step = len(idx) / float(max_specs)
+            idx = [idx[int(j * step)] for j in range(max_specs)]
+        keep = set(idx)
+        path = os.path.join(self.out, "specs.json")
+        with open(path, "w") as f:
+            json.dump([sp if i in keep else None for i, sp in enumerate(self.specs)], f)
+        # first-run observables in the same canonical text form: recompute them HERE (same process, original order already ran)
+        p = vlib.import_impl()
+        pr = subprocess.run([sys.executable, os.path.join(os.path.dirname(__file__), "evalspec.py"), path], capture_output=True, text=True,
+                            env=dict(os.environ), timeout=1800)
+        if pr.returncode != 0:
+            self.violation("order-independence harness failed", {}, pr.stderr[-500:])
+            return
+        rev = json.loads(pr.stdout)
+        n = 0
+        for i in idx:
+            here = evalspec.evaluate(p, self.specs[i])
+            there = rev.get(str(i))
+            self.direct_evaluations += 1
+            if there is None or [here[0], list(here[1])] != [there[0], list(there[1])]:
+                n += 1
+                if n <= 5:
+                    self.violation("the same call gives a different result in a fresh interpreter that made the calls in reverse order (state carried between calls)",
+                                   self.meta_cases[i]["input"], {"case": self.meta_cases[i]["desc"]})
+        self.count("order_check.cases", len(idx))
 
     def violation(self, desc, inp, detail, key=None):
         v = {"desc": desc, "input": inp, "detail": detail}
@@ -57,6 +93,10 @@ class Emitter:
         self.direct_violations.append(v)
 
     def finish(self, extra=None):
+        try:
+            self.order_check()
+        except Exception as e:  # noqa
+            self.violation("order-independence harness crashed: %r" % e, {}, {})
         files = []
         n = len(self.cases)
         tot = sum(c[3] for c in self.cases)
